@@ -80,8 +80,8 @@ func RegisterTypeOf(v any) error {
 				return nil, nil, errDecodeEOD
 			}
 
-			l := binary.BigEndian.Uint32(packet)
-			if len(packet) < int(l+4) {
+			l := int(binary.BigEndian.Uint32(packet))
+			if len(packet) < l+4 {
 				return nil, nil, errDecodeEOD
 			}
 
@@ -138,8 +138,8 @@ func RegisterTypeOf(v any) error {
 				return nil, nil, errDecodeEOD
 			}
 
-			l := binary.BigEndian.Uint32(packet)
-			if len(packet) < int(l+4) {
+			l := int(binary.BigEndian.Uint32(packet))
+			if len(packet) < l+4 {
 				return nil, nil, errDecodeEOD
 			}
 
